@@ -27,7 +27,7 @@ type PropSpec struct {
 }
 
 func kinds(ks ...string) map[string]bool {
-	m := map[string]bool{}
+	m := map[string]bool{"inv": true}
 	for _, k := range ks {
 		m[k] = true
 	}
@@ -177,7 +177,7 @@ func runHistory(dir string, seed uint64, spec PropSpec, forceBackend string) (*C
 		}
 		return obs
 	}
-	obsOp := func() *Op { return &Op{Kind: "obs", Reload: spec.Profile.ObsReload} }
+	obsOp := func() *Op { return &Op{Kind: "obs", Reload: spec.Profile.ObsReload, Inv: true} }
 	create := g.createOp()
 	obs := emit(create)
 	if len(obs) == 0 || obs[0] != "res ok" {
